@@ -45,6 +45,12 @@ pub enum Fault {
 
 /// marker added to the unit of an F3 fault for its bus-visible form
 pub const BUS_ONLY: usize = 1000;
+/// marker of the *compensated* form of F2 on an ALU result: `unit = COMP + 100*port + 10*neg + u`.
+/// The slot takes value + unit(u) with everything downstream recomputed, and the UNUSED operand
+/// cell `port` of the defining ALU row (a cell the op kind does not read: off the bus, meant to
+/// be irrelevant) takes honest ± unit(u). The defining row's relation is violated either way;
+/// a sound AIR must not let an unused cell absorb the difference.
+pub const COMP: usize = 2000;
 
 impl Fault {
     /// class F5: slot-less (inherited) input limb `limb` of permutation op `op` += basis unit
@@ -535,6 +541,22 @@ impl<B: Backend> Fixture<B> {
             for &u in units {
                 v.push(Fault::F3 { slot: s as u32, unit: u });
             }
+            if let Some(Definer::Alu(oi, _)) = d {
+                if let Some(Op::Alu { kind, a, b, c, out, .. }) = self.circuit.ops.get(*oi) {
+                    let used: Vec<usize> = alu_used_ports(*kind, *a, *b, *c, *out).into_iter().map(|(p, _)| p).collect();
+                    let both: Vec<usize> = if B::D > 1 { vec![0, B::D - 1] } else { vec![0] };
+                    for port in 0..3usize {
+                        if used.contains(&port) {
+                            continue;
+                        }
+                        for neg in 0..2usize {
+                            for &u in &both {
+                                v.push(Fault::F2 { slot: s as u32, unit: COMP + 100 * port + 10 * neg + u });
+                            }
+                        }
+                    }
+                }
+            }
             if !self.out_duplicates(WitnessId(s as u32)).is_empty() {
                 // few sites: the lowest and the highest coefficient in every tier
                 let both: Vec<usize> = if B::D > 1 { vec![0, B::D - 1] } else { vec![0] };
@@ -734,6 +756,27 @@ impl<B: Backend> Fixture<B> {
                     }],
                     committed,
                 ))
+            }
+            Fault::F2 { slot, unit: u } if *u >= COMP => {
+                let code = *u - COMP;
+                let (port, neg, uu) = (code / 100, (code / 10) % 10 == 1, code % 10);
+                let Some(Some(Definer::Alu(oi, _))) = self.definers.get(*slot as usize) else {
+                    return Err("slot is not defined by an ALU row".into());
+                };
+                let row = self.circuit.ops[..*oi].iter().filter(|o| matches!(o, Op::Alu { .. })).count();
+                let dev = Deviation {
+                    slots: vec![(WitnessId(*slot), Change::Add(unit::<B>(uu)))],
+                    adapt_publics: true,
+                    ..Deviation::none()
+                };
+                let mut t = self.forge(&dev)?.traces;
+                let cell = &mut t.alu_trace.values.get_mut(row).ok_or("no forged ALU row")?[port.min(2)];
+                if neg {
+                    *cell -= unit::<B>(uu);
+                } else {
+                    *cell += unit::<B>(uu);
+                }
+                Ok((t.clone(), self.inputs.clone(), vec![], t))
             }
             Fault::F2 { slot, unit: u } if *u >= BUS_ONLY => {
                 // bus-visible form: the new value everywhere downstream, but the in-row
